@@ -41,7 +41,7 @@ type permissionMap struct {
 func (m *permissionMap) insert(addr net.Addr, p *permission) bool {
 	m.mutex.Lock()
 	defer m.mutex.Unlock()
-	p.addr = addr
+	p.addr = cloneAddr(addr)
 	m.permMap[ipnet.FingerprintAddr(addr)] = p
 
 	return true
